@@ -318,6 +318,10 @@ type Rec struct {
 	slotVal         any
 	HangIsViolation bool
 	WatchdogS       int
+	// PersistSlot writes the case about to be executed to <partial>.slot so that a fatal
+	// runtime error (stack overflow), which no recover() can catch, leaves the input behind.
+	PersistSlot bool
+	slotFile    *os.File
 }
 
 // ViolationRec describes one reported violation.
@@ -402,6 +406,24 @@ func (r *Rec) slot(sub string, c any) {
 	r.slotMu.Lock()
 	r.slotSub, r.slotVal = sub, c
 	r.slotMu.Unlock()
+	if r.PersistSlot {
+		if _, isStr := c.(string); isStr {
+			return // progress notes of multi-call cases, not a case
+		}
+		if r.slotFile == nil {
+			if out := os.Getenv("VERIF_PARTIAL_OUT"); out != "" {
+				r.slotFile, _ = os.Create(out + ".slot")
+			}
+		}
+		if r.slotFile != nil {
+			raw, err := json.Marshal(c)
+			if err == nil {
+				b, _ := json.Marshal(ReplayFile{Property: r.Property, Sub: sub, Case: raw, Message: "the process died with a fatal runtime error while executing this case"})
+				r.slotFile.Truncate(0)
+				r.slotFile.WriteAt(b, 0)
+			}
+		}
+	}
 }
 
 func (r *Rec) progress() { r.prog.Add(1) }
